@@ -31,9 +31,21 @@ pub struct Cfg {
     pub ignore_path_and_query_case: bool,
     pub always_match_any_host: bool,
     pub ignore_marketing_query_params: bool,
+    /// the list of marketing parameters: absent = the library's default list, Some([]) = an empty list
+    #[serde(default)]
+    pub marketing_list: Option<Vec<String>>,
 }
 
 impl Cfg {
+    /// the list is rarely configured: default five times out of seven, else empty or a custom one
+    pub fn gen_marketing_list(rng: &mut Rng) -> Option<Vec<String>> {
+        match rng.below(7) {
+            0 => Some(Vec::new()),
+            1 => Some(vec!["zz".to_string(), "utm_source".to_string()]),
+            _ => None,
+        }
+    }
+
     pub fn to_config(&self) -> RouterConfig {
         let mut c = RouterConfig::default();
         c.ignore_host_case = self.ignore_host_case;
@@ -42,6 +54,9 @@ impl Cfg {
         c.always_match_any_host = self.always_match_any_host;
         c.ignore_marketing_query_params = self.ignore_marketing_query_params;
         c.pass_marketing_query_params_to_target = true;
+        if let Some(list) = &self.marketing_list {
+            c.marketing_query_params = list.iter().cloned().collect();
+        }
         c
     }
 }
@@ -564,6 +579,18 @@ pub(crate) fn probe_from_rule(rng: &mut Rng, rule: &Value) -> Probe {
         let n2 = if rng.coin() { n.to_uppercase() } else { n.to_lowercase() };
         p.headers.push((n2, rng.pick_str(HEADER_VALUES)));
     }
+    // a query that is not in canonical form: parameters in another order, an empty "?", an empty value
+    if rng.chance(1, 6) {
+        if let Some((path, query)) = p.path.clone().split_once('?') {
+            let mut params: Vec<&str> = query.split('&').collect();
+            params.reverse();
+            p.path = format!("{path}?{}", params.join("&"));
+        } else if rng.coin() {
+            p.path.push('?');
+        } else {
+            p.path.push_str(&rng.pick_str(&["?b=2&a=1", "?x=", "?q=test&"]));
+        }
+    }
     // marketing parameters on the request (ignored for matching when so configured)
     if rng.chance(1, 8) {
         let sep = if p.path.contains('?') { '&' } else { '?' };
@@ -641,6 +668,7 @@ fn gen_case(rng: &mut Rng, prop: &str, mode: &str, tier: Tier) -> W1Case {
         ignore_path_and_query_case: rng.chance(1, 3),
         always_match_any_host: rng.coin(),
         ignore_marketing_query_params: rng.coin(),
+        marketing_list: Cfg::gen_marketing_list(rng),
     };
     let swarm = Swarm::new(rng);
     let rg = RuleGen::new(rng);
@@ -739,6 +767,15 @@ fn gen_case(rng: &mut Rng, prop: &str, mode: &str, tier: Tier) -> W1Case {
                 if t.contains('@') {
                     r["target"] = json!(format!("/t/{id}"));
                 }
+            }
+        }
+        if mode == "hist" && rng.chance(1, if cluster || host_cluster { 5 } else { 12 }) {
+            // a rule that is sampled out (0) or always in (100), often with stop: the pipeline ignores the stop of a
+            // rule it does not apply, and the explain trace must do the same (the C11 mode keeps sampling off, as the
+            // property says)
+            r["source"]["sampling"] = json!(*rng.pick(&[0u32, 100]));
+            if rng.coin() {
+                r["stop"] = json!(true);
             }
         }
         rules.push(r);
@@ -1243,6 +1280,25 @@ fn exec(case: &W1Case, ctx: &mut Ctx) {
                     let exp = expected(&rrules, &q, &config);
                     if got != exp {
                         problems.push(("match!=reference".to_string(), format!("match = {got:?}, rules whose triggers are satisfied = {exp:?}")));
+                    }
+                    // a marketing parameter that does not occur in the request cannot change how the request is read:
+                    // the same request under the same configuration plus one such parameter in the list
+                    if config.ignore_marketing_query_params && !raw.path_and_query_skipped.original.contains("never_in_a_request") {
+                        let mut sibling = config.clone();
+                        sibling.marketing_query_params.insert("never_in_a_request".to_string());
+                        let q2 = redirectionio::http::Request::rebuild_with_config(&sibling, &raw);
+                        if q2.path_and_query_skipped.path_and_query != q.path_and_query_skipped.path_and_query {
+                            problems.push((
+                                "request-read-differently-under-sibling-config".to_string(),
+                                format!(
+                                    "{:?} is read as {:?}, and as {:?} once a parameter that does not occur in it is added to the marketing list ({} entries)",
+                                    raw.path_and_query_skipped.original,
+                                    q.path_and_query_skipped.path_and_query,
+                                    q2.path_and_query_skipped.path_and_query,
+                                    config.marketing_query_params.len()
+                                ),
+                            ));
+                        }
                     }
                 }
                 if c02 {
